@@ -13,6 +13,10 @@ import regex_dfa as R
 from vlib.core import Harness, SPEC_SRC
 
 
+# per-validator bounds where the default bound does not finish under the per-harness cap (measured on this machine)
+BOUNDS = {}
+
+
 def table_entries():
     """[(index, kind, text)] of CHARACTER_DATA in specification.rs"""
     src = open(os.path.join(SPEC_SRC, 'specification.rs'), encoding='utf-8').read()
@@ -96,13 +100,15 @@ def build(tier, known):
         gen.append(R.emit_rust(refname, d))
         minacc, depth = dfa_depth(d)
         nfull = 8 if tier == 'quick' else 12
+        ov = BOUNDS.get((tier, fn), {})
+        nfull = int(os.environ.get('VERIF_C19_FULL', ov.get('full', nfull)))
         if '"' in rx or '#' in rx and '"#' in rx:
             raise RuntimeError('regex text not embeddable')
         lit = 'r#"' + rx + '"#'
         name = f'h_c19_e{idx}_re{k}_full_n{nfull}'
         hs.append(Harness(
             name, 'spec', 'spec_lib.rs',
-            f'h_regex_entry!({name}, crate::regex::{fn}, {refname}, {refname}_dom, {nfull}, {nfull + 2});',
+            f'h_regex_entry!({name}, crate::regex::{fn}, {refname}, {refname}_dom, {nfull}, {nfull + 2}, {"true" if (minacc is not None and minacc <= nfull) else "false"});',
             functions=[f'regex::{fn} (= CHARACTER_DATA[{idx}].check_fn, see h_c19_table_pairs)'],
             bound=f'all byte strings of length <= {nfull} over all 256 byte values; unwind {nfull + 2}',
             claim=f'check_fn(s) == fullmatch(r"{rx}", s); reference DFA {d["nstates"]} states, min accepted length {minacc}, depth {depth}',
@@ -114,6 +120,7 @@ def build(tier, known):
         if fn in ('validate_regex_8', 'validate_regex_22', 'validate_regex_24') and tier == 'thorough':
             want = 131
         nred = min(want, cap)
+        nred = int(os.environ.get('VERIF_C19_ALPHA', ov.get('alpha', nred)))
         if nred > nfull:
             alph = reduced_alphabet(d)
             alit = 'b"' + ''.join('\\x%02x' % b for b in alph) + '"'
